@@ -1403,5 +1403,6 @@ func isTimeType(t types.Type) bool {
 
 func isEventKey(s string) bool {
 	return strings.HasPrefix(s, "called:") || strings.HasPrefix(s, "ncalls:") || strings.HasPrefix(s, "ret:") || strings.HasPrefix(s, "arg:") ||
-		strings.HasPrefix(s, "sent:") || strings.HasPrefix(s, "closed:") || strings.HasPrefix(s, "recvd:")
+		strings.HasPrefix(s, "sent:") || strings.HasPrefix(s, "closed:") || strings.HasPrefix(s, "recvd:") ||
+		strings.HasPrefix(s, "recvval:") || strings.HasPrefix(s, "sentval:")
 }
